@@ -65,7 +65,46 @@ def gen_spec(rng, name, allow_required=False, kinds=('fn',), lists=False,
 def full_name(spec):
   mod = spec.get('module')
   nm = spec.get('regname') or spec['name']
+  if spec.get('kind') == 'regmethod':
+    # a registered method of a registered class lives under the class
+    nm = 'H_%s.%s' % (spec['name'], spec['name'])
   return (mod + '.' + nm) if mod else 'ginsim_probes.' + nm
+
+
+def display_name(spec):
+  """The shortest selector gin prints for the probe (names are unique)."""
+  # (error messages use the registry's minimal selector, which for a method is
+  # its bare - unique - name)
+  return spec['name']
+
+
+def gen_alias(rng, base, name):
+  """A second registration of the SAME underlying callable under another name,
+  with its own allow/deny list (a registration history gin supports)."""
+  spec = {'name': name, 'kind': base['kind'], 'params': copy.deepcopy(base['params']),
+          'varargs': base.get('varargs'), 'varkw': base.get('varkw'),
+          'api': 'external', 'module': base.get('module'),
+          'alias_of': base['name']}
+  req = [p['n'] for p in spec['params'] if p.get('d') == REQ]
+  names = [p['n'] for p in spec['params']]
+  r = rng.random()
+  if names and r < 0.35:
+    allow = sorted(set(n for n in names if rng.random() < 0.5) | set(req))
+    if allow:
+      spec['allow'] = allow
+  elif names and r < 0.7:
+    deny = sorted(set(n for n in names if rng.random() < 0.5) - set(req))
+    if deny:
+      spec['deny'] = deny
+  return spec
+
+
+def alias_eligible(spec):
+  """Only callables that registration leaves untouched can be registered twice
+  independently (a @configurable class is modified in place)."""
+  if spec['kind'] in ('method', 'regmethod') or spec.get('alias_of'):
+    return False
+  return spec['kind'] == 'fn' or spec.get('api') in ('register', 'external')
 
 
 def positional_names(spec):
